@@ -72,6 +72,16 @@ CHECKS = {
             "Addresses 0x100100-0xFFFFFF are outside the documented space and not judged; device windows are not installed on "
             "the bare memory objects; overlay precedence among overlapping overlays is not constrained by the statement.",
             "DESIGN.md section 4, C11"),
+    "C12": ("model_checking",
+            "deviation-bounded explicit-state search on both real machine models (Rust CoreRuntime, Python PCE500Emulator) over "
+            "firmware loops x handlers x initial masks x timer periods, every transition judged by statement-derived monitors",
+            "For each configuration a BFS over {step, ON press/release, key press/release, injected key event} with a bounded "
+            "number of non-step events explores all reachable machine states to the stated depth (also from roots where a handler "
+            "has already returned); monitors check gated delivery, the 5-byte frame, master-enable clearing, the vector, RETI as "
+            "inverse, that pending requests are neither lost nor ignored once unmasked, HALT freeze/wake and OFF stopping timers.",
+            "Synthetic ROM (vectors, short loops) instead of real firmware; handlers begin with NOP and main loops leave S/F alone "
+            "so a delivery is recognisable across one step on both models; depth 6/10 (Rust) and 5/7 (Python), <=2/3 deviations.",
+            "DESIGN.md section 4, C12"),
     "C13": ("model_checking",
             "explicit-state BFS to closure over tick/reset/snapshot/ISR-clear histories on the real TimerScheduler "
             "(via PCE500Emulator._tick_timers) and Rust TimerContext::tick_timers against a reference timer pair",
